@@ -179,6 +179,10 @@ def Send.write (s : Send) (n limit : Nat) : Option (Except WriteErr (Nat × Send
         some (.ok (k, { s with pending := s.pending.write k }))
     else none
 
+/-- the first test `SendStream::write_source` makes on the half: a finished or reset half reports a
+    closed stream before the connection-level limit is looked at -/
+def Send.closedFirst (s : Send) : Bool := Gen.writeClosedFirst && !s.isWritable
+
 /-- the test `SendStream::write_source` makes before looking at the connection-level limit: a
     writable half the peer stopped reports the stop -/
 def Send.stoppedFirst (s : Send) : Option Nat :=
